@@ -150,6 +150,9 @@ pub fn path_data<F: Flavour>(nodes: &[F::Node], p: &PathB<F>, out: &mut SOut) {
         (s as usize) < nodes.len() && (d as usize) < nodes.len() && F::addr(F::e_src(e)) == F::addr(&nodes[s as usize]) && F::addr(F::e_dst(e)) == F::addr(&nodes[d as usize]) && F::e_accessors(e) == F::tri(e)
     });
     out.path = Some(tris);
+    if let Some(m) = p.adapters() {
+        problems.push(m);
+    }
     if !problems.is_empty() {
         out.path_access = Some(problems.join("; "));
     }
